@@ -349,7 +349,13 @@ class BinaryGroup(GroupNode):
     has_boost = False
 
     def query(self, parser):
-        assert len(self.nodes) == 2
+        if len(self.nodes) < 2:
+            # An operand is missing because the operator stood next to another
+            # operator (e.g. "a ANDMAYBE ANDNOT b"): ignore the operator, as
+            # for an operator at the start or end of the query
+            if self.nodes:
+                return self.nodes[0].query(parser)
+            return None
 
         qa = self.nodes[0].query(parser)
         qb = self.nodes[1].query(parser)
